@@ -108,6 +108,6 @@ func (r *ROM) BusWriter(busAddr uint32) io.Writer {
 	// Return a reader over the ROM contents up to the next bank to prevent accidental overflow:
 	bank := busAddr >> 16
 	pcStart := (bank << 15) | (page - 0x8000)
-	pcEnd := (bank << 15) | 0x7FFF
+	pcEnd := ((bank << 15) | 0x7FFF) + 1
 	return &busWriter{r, busAddr, pcStart, pcEnd, 0}
 }
